@@ -214,8 +214,35 @@ def typing_errors():
     return out
 
 
+# near-misses of the families above that cl does NOT diagnose on the current tree (err == nil, Go rejects
+# the output): known findings of C06, listed by these names in known_findings.d/C06.txt
+KNOWN_UNDIAGNOSED = {
+    "dup-interface-method": "duplicate method in an interface type: \"duplicate method M\"",
+    "dup-field-in-literal": "`S{a: 1, b: 2, a: 3}`: \"duplicate field name a in struct literal\"",
+    "dup-index-in-slice-literal": "`[]int{0: 1, 1: 2, 0: 3}`: \"duplicate index 0 in array or slice literal\"",
+    "dup-index-in-array-literal": "`[3]int{1: 1, 1: 2}`: \"duplicate index 1 in array or slice literal\"",
+    "dup-method-and-field": "a struct field and a method with the same name: \"field and method with the same name m\"",
+    "dup-result-name": "`func f() (a int, a string)`: \"a redeclared in this block\"",
+    "dup-param-result-name": "`func f(a int) (a string)`: \"a redeclared in this block\"",
+    "type-error:index-with-string": "`xs[\"a\"]` on a slice: \"cannot convert \"a\" (untyped string constant) to type int\"",
+    "type-error:convert-impossible": "`int(\"s\")`: \"cannot convert \"s\" (untyped string constant) to type int\"",
+    "type-error:map-key-wrong-type": "`m[1]` on a map[string]int: \"cannot use 1 (untyped int constant) as string value in map index\"",
+    "type-error:send-on-non-chan": "`x <- 2` with x int: \"cannot send to non-channel\"",
+    "type-error:send-wrong-type": "`ch <- \"s\"` on a chan int: \"cannot use \"s\" ... as int value in send\"",
+    "type-error:use-type-as-value": "`x := T`: \"T (type) is not an expression\"",
+    "type-error:negative-array-len": "`var xs [-1]int` is written as `[...]int`: \"invalid use of [...] array (outside a composite literal)\"",
+    "type-error:main-with-result": "`func main() int`: \"func main must have no arguments and no return values\"",
+}
+# not near-misses after all (Go accepts them, or the XGo parser rejects them): left out
+NOT_NEAR_MISS = {"switch-dup-across:bool", "switch-dup-within:bool", "type-error:defer-non-call-value",
+                 "type-error:go-non-call-value", "type-error:label-break-nonenclosing"}
+
+
 def all_witnesses():
+    """-> (diagnosed: name -> source, undiagnosed: name -> source)"""
     out = {}
     for fam in (typeswitch_dups, exprswitch_dups, redeclarations, typing_errors):
         out.update(fam())
-    return out
+    diag = {k: v for k, v in out.items() if k not in KNOWN_UNDIAGNOSED and k not in NOT_NEAR_MISS}
+    und = {k: v for k, v in out.items() if k in KNOWN_UNDIAGNOSED}
+    return diag, und
